@@ -33,6 +33,8 @@ def shapes(tier='quick'):
     shape('three-provides-mts-shared-itf', [I_io, I_rich], [(0, P), (1, P), (0, P)], prefix=['Lib'])
     shape('two-requires-mixed', [I_io, I_rich], [(0, R), (1, R)], req=('SET0', 'REMAINING'))
     shape('two-requires-mixed-rev', [I_io, I_rich], [(0, R), (1, R)], req=('REMAINING', 'SET1'), fac='IMPORT')
+    shape('two-named-requires', [I_io, I_rich], [(0, P), (0, R), (1, R)], req=('SET01', 'NONE'), fac='IMPORT')
+    shape('three-requires-two-named', [I_io], [(0, R), (0, R), (0, R)], req=('REMAINING', 'SET02'))
     shape('out-only-provides', [I_outonly], [(0, P)])
     shape('in-only-requires', [I_inonly], [(0, R)])
     shape('out-only-requires-in-only-provides', [I_outonly, I_inonly], [(1, P), (0, R)], creator=False)
@@ -67,8 +69,10 @@ def shapes(tier='quick'):
     shape('formal-type-is-enum', [I_inonly], [(0, P)], expect='FindError', extra={'formal_type': 'enum'})
     shape('formal-type-ambiguous', [I_inonly], [(0, P)], expect='FindError', extra={'formal_type': 'ambiguous'},
           comp_ns=('My', 'Sub'), itf_ns=[('My', 'Sub')])
+    shape('formal-type-shadowed-by-enum', [I_inonly], [(0, P)], expect='FindError',
+          extra={'formal_type': 'shadowed'}, comp_ns=('My', 'Sub'), itf_ns=[('My', 'Sub')])
     # -- scoping (C07): same-named declarations in unrelated namespaces must not influence the result
-    shape('decoy-extern-unrelated-ns', [I_inonly], [(0, P), (0, R)], extra={'decoy': 'extern'},
+    shape('decoy-extern-unrelated-ns', [I_rich], [(0, P), (0, R)], extra={'decoy': 'extern'},
           comp_ns=('App',), itf_ns=[('Vendor',)])
     shape('decoy-interface-unrelated-ns', [I_io], [(0, P)], extra={'decoy': 'interface'}, comp_ns=('App', 'Deep'),
           itf_ns=[('App',)])
